@@ -129,6 +129,48 @@ pub trait Prop: Sync + Send {
     }
 }
 
+/// Post-mortem record for crashes that kill the whole process (SIGSEGV in a release build, abort, stack overflow):
+/// every shard copies the tape of the case it is about to run into its slot of a shared, file-backed mapping
+/// (a plain memcpy, no system call); when the process dies the driver reads the file, replays the last case of
+/// every shard in a fresh process and reports the one that crashes.  File named by VCHECK_CRASHLOG; absent = off.
+pub struct CrashLog {
+    base: *mut u8,
+}
+unsafe impl Send for CrashLog {}
+unsafe impl Sync for CrashLog {}
+
+pub const CRASH_SLOT_WORDS: usize = 4096;
+const CRASH_SLOT_BYTES: usize = 8 + 4 * CRASH_SLOT_WORDS;
+const CRASH_SLOTS: usize = 64;
+
+impl CrashLog {
+    pub fn open() -> Option<CrashLog> {
+        let path = std::env::var("VCHECK_CRASHLOG").ok()?;
+        let f = std::fs::OpenOptions::new().read(true).write(true).create(true).truncate(true).open(&path).ok()?;
+        f.set_len((CRASH_SLOT_BYTES * CRASH_SLOTS) as u64).ok()?;
+        use std::os::unix::io::AsRawFd;
+        let p = unsafe { libc::mmap(std::ptr::null_mut(), CRASH_SLOT_BYTES * CRASH_SLOTS, libc::PROT_READ | libc::PROT_WRITE, libc::MAP_SHARED, f.as_raw_fd(), 0) };
+        if p == libc::MAP_FAILED {
+            return None;
+        }
+        Some(CrashLog { base: p as *mut u8 })
+    }
+    /// kind 1 = generated case (tape), 2 = fixed case (index in words[0]), 0 = idle
+    pub fn record(&self, slot: usize, kind: u32, words: &[u32]) {
+        if slot >= CRASH_SLOTS {
+            return;
+        }
+        let n = words.len().min(CRASH_SLOT_WORDS);
+        unsafe {
+            let p = self.base.add(slot * CRASH_SLOT_BYTES) as *mut u32;
+            p.write_volatile(0);
+            p.add(1).write_volatile(n as u32);
+            std::ptr::copy_nonoverlapping(words.as_ptr(), p.add(2), n);
+            p.write_volatile(kind);
+        }
+    }
+}
+
 #[derive(Default)]
 struct Agg {
     evaluations: u64,
@@ -424,6 +466,7 @@ pub fn run<P: Prop + 'static>(p: Arc<P>, cfg: Config) -> i32 {
 
     let stop = Arc::new(AtomicBool::new(false));
     let threads = cfg.threads.max(1);
+    let crashlog: Arc<Option<CrashLog>> = Arc::new(CrashLog::open());
 
     // ---- watchdog: a case that runs longer than 120 s makes the run inconclusive (exit 2)
     let heartbeat: Arc<Vec<AtomicU64>> = Arc::new((0..threads).map(|_| AtomicU64::new(0)).collect());
@@ -470,6 +513,7 @@ pub fn run<P: Prop + 'static>(p: Arc<P>, cfg: Config) -> i32 {
             let stop = stop.clone();
             let hb = heartbeat.clone();
             let cur = current.clone();
+            let crashlog = crashlog.clone();
             handles.push(run_on_big_stack(move || {
                 let mut agg = Agg::default();
                 let mut fail: Option<Failure<P::Case>> = None;
@@ -482,6 +526,9 @@ pub fn run<P: Prop + 'static>(p: Arc<P>, cfg: Config) -> i32 {
                     }
                     hb[t].store(t0.elapsed().as_millis() as u64 + 1, Ordering::Relaxed);
                     *cur[t].lock().unwrap() = Some(json!({ "fixed_case_index": lo + i }));
+                    if let Some(cl) = &*crashlog {
+                        cl.record(t, 2, &[(lo + i) as u32]);
+                    }
                     let o = pp.check(case);
                     agg.add(pp.key(case), &o);
                     agg.fixed += 1;
@@ -494,6 +541,9 @@ pub fn run<P: Prop + 'static>(p: Arc<P>, cfg: Config) -> i32 {
                     }
                 }
                 hb[t].store(0, Ordering::Relaxed);
+                if let Some(cl) = &*crashlog {
+                    cl.record(t, 0, &[]);
+                }
                 (agg, fail)
             }));
         }
@@ -546,6 +596,7 @@ pub fn run<P: Prop + 'static>(p: Arc<P>, cfg: Config) -> i32 {
             let digest_in = digest_in.clone();
             let base = fixed_digest_count + t * per_shard;
             let dump = cfg.dump;
+            let crashlog = crashlog.clone();
             handles.push(run_on_big_stack(move || {
                 let mut agg = Agg::default();
                 let mut fail: Option<Failure<P::Case>> = None;
@@ -562,6 +613,9 @@ pub fn run<P: Prop + 'static>(p: Arc<P>, cfg: Config) -> i32 {
                     // its tape is cheap to keep
                     hb[t].store(t0.elapsed().as_millis() as u64 + 1, Ordering::Relaxed);
                     *cur[t].lock().unwrap() = Some(json!({ "tape": tape_v }));
+                    if let Some(cl) = &*crashlog {
+                        cl.record(t, 1, &tape_v);
+                    }
                     let mut tape = Tape::new(&tape_v);
                     let case = pp.generate(&mut tape);
                     let mut o = pp.check(&case);
@@ -593,6 +647,9 @@ pub fn run<P: Prop + 'static>(p: Arc<P>, cfg: Config) -> i32 {
                     }
                 }
                 hb[t].store(0, Ordering::Relaxed);
+                if let Some(cl) = &*crashlog {
+                    cl.record(t, 0, &[]);
+                }
                 (agg, fail)
             }));
         }
